@@ -132,11 +132,16 @@ def run(ctx, chk):
             falses = [p for p in paths if p.end == "return" and p.ret == ("int", 0, "bool")]
             others = [p for p in paths if p.end == "return" and p not in falses]
             eqg = cmp(lenme, "Eq", L(P(2)))
-            okf = len(falses) == 1 and gset(res[id(falses[0])]) == {(eqg[0], nf.NEG[eqg[1]])}
+            # lengths may be compared in bits: for aligned content of this codec bs.len() is BITS * len() (nf.align_cmp, I-align)
+            iu_cd = cfg.codecs.get("iupac::Iupac")
+            iu_bits = iu_cd.bits if iu_cd else None
+            def gl(gs):
+                return an.gset_aligned(gs, iu_bits) if iu_bits else gset(gs)
+            okf = len(falses) == 1 and gl(res[id(falses[0])]) == {(eqg[0], nf.NEG[eqg[1]])}
             chk.ob("G-contains/len", what, okf, "must return false exactly when the lengths differ; false under %s" % [gshow(gset(res[id(p)])) for p in falses], b["span"])
             okc = False
             got = "?"
-            if len(others) == 1 and gset(res[id(others[0])]) == {eqg}:
+            if len(others) == 1 and gl(res[id(others[0])]) == {eqg}:
                 t = others[0].ret
                 got = show(t)[:240]
                 if an.is_call(t, re.compile(r"^<seq::Seq<codec::iupac::Iupac> as std::cmp::PartialEq<&seq::slice::SeqSlice<codec::iupac::Iupac>>>::eq$")):
